@@ -302,6 +302,54 @@ func checkC11(e *Engine, r *Report) {
 			})
 		}
 		r.MinInstances("purge decisions in RefreshPods/RefreshContainers", nPurge, 3)
+		// … and purging really removes the entry: DeleteContainer / DeletePod delete the looked-up id from their table
+		for _, t := range []struct{ fn, table string }{{"cache.DeleteContainer", "Containers"}, {"cache.DeletePod", "Pods"}} {
+			g := e.Fn(pkgCA, t.fn)
+			fTab := e.Field(pkgCA, "cache", t.table)
+			if g == nil || fTab == nil || len(g.Params) != 2 {
+				r.Undecided("R7:purge-removes-entry@"+t.fn, "data-flow refresh semantics", t.fn+" and cache."+t.table+" exist", "-", nil, "not found")
+				continue
+			}
+			idP := ssa.Value(g.Params[1])
+			removes := func(in ssa.Instruction) bool {
+				ci, ok := in.(ssa.CallInstruction)
+				if !ok || !isMapWriteOf(in, fTab) || len(ci.Common().Args) != 2 {
+					return false
+				}
+				k := ci.Common().Args[1]
+				if sameObject(k, idP) {
+					return true
+				}
+				// the id of the entry looked up under the parameter
+				okKey := false
+				if c, ok := unspill(k).(ssa.CallInstruction); ok && callObj(c.Common()) != nil && (callObj(c.Common()).Name() == "GetID") {
+					Origins(callArgs(c)[0], func(v ssa.Value) bool {
+						var lk *ssa.Lookup
+						switch y := v.(type) {
+						case *ssa.Extract:
+							lk, _ = y.Tuple.(*ssa.Lookup)
+						case *ssa.Lookup:
+							lk = y
+						}
+						if lk != nil && isFieldLoad(lk.X, fTab) && sameObject(lk.Index, idP) {
+							okKey = true
+						}
+						return okKey
+					})
+				}
+				return okKey
+			}
+			known := func(cond ssa.Value) (bool, bool) {
+				if ex, ok := unspill(cond).(*ssa.Extract); ok && ex.Index == 1 {
+					if lk, ok := ex.Tuple.(*ssa.Lookup); ok && lk.CommaOk && isFieldLoad(lk.X, fTab) {
+						return true, true
+					}
+				}
+				return false, false
+			}
+			p := FindPath(PathQuery{Fn: g, Assume: known, Target: isRet, Block: removes})
+			r.Check("R7:purge-removes-entry@"+t.fn, "data-flow refresh semantics", t.fn+" removes the entry of a known id from cache."+t.table, e.Pos(g.Pos()), g, p == nil, e.pathString(p), true)
+		}
 		src := &sliceSrc{}
 		for _, ret := range Returns(rc) {
 			traceSlice(e, rc, retValue(ret, 1), src, map[ssa.Value]bool{}, 0)
